@@ -192,7 +192,118 @@ def run(tier, seed):
                          "canonical form changed under a cosmetic rewrite", kind="oracle")
                 break
     embedded_family(run, tier, seed)
+    shared_objects_and_faults(run, tier, seed)
     return run.finish()
+
+
+def _direct(s):
+    try:
+        return {"ok": to_parsing_canonical_form(s)}
+    except Exception as e:  # noqa
+        return {"err": exc_class(e)}
+
+
+def shared_objects_and_faults(run, tier, seed):
+    """(a) a schema assembled in code in which ONE container object stands at two places, in different namespaces: its canonical
+    form is that of the same schema loaded from JSON text (no sharing);  (b) a call that dies midway (the interpreter's
+    recursion limit, reached while the text is being written), then the next call;  (c) threads canonicalising large
+    schemas at the same time"""
+    import copy
+    import sys
+    import threading
+    from fastavro.schema import parse_schema
+    for cont in ("array", "map"):
+        for ref_shape in ("direct", "union", "nested"):
+            inner = "Tag" if ref_shape == "direct" else (["null", "Tag"] if ref_shape == "union" else {"type": "array", "items": "Tag"})
+            shared = {"type": "array", "items": inner} if cont == "array" else {"type": "map", "values": inner}
+
+            def rec(ns):
+                return {"type": "record", "name": ns + ".Holder", "fields": [
+                    {"name": "tag", "type": {"type": "enum", "name": ns + ".Tag", "symbols": ["X", "Y"] if ns == "a" else ["Y", "Z"]}},
+                    {"name": "tags", "type": shared}]}
+            sch = {"type": "record", "name": "Top", "fields": [{"name": "one", "type": rec("a")}, {"name": "two", "type": rec("org.east")}]}
+            case = {"schema": json.loads(json.dumps(sch)), "tags": ["shared-container-object", cont, ref_shape]}
+            run.count(case, True, ["shared-container-object"])
+            b = _direct(json.loads(json.dumps(sch)))
+            a, c = _direct(sch), _direct(copy.deepcopy(sch))
+            try:
+                d = _direct(parse_schema(sch))
+            except Exception as e:  # noqa
+                d = {"err": exc_class(e)}
+            if a != b or c != b or d != b:
+                case["with_shared_object"], case["from_json_text"], case["deepcopy"], case["parsed_first"] = a, b, c, d
+                run.fail(case, "the canonical form of a schema in which one container object stands at two places differs from that of "
+                               "the same schema loaded from JSON text", kind="oracle")
+    # (b) a failing call, then the next
+    deep = {"type": "record", "name": "deep.N120", "fields": [{"name": "leaf", "type": "int"}]}
+    for level in range(119, -1, -1):
+        deep = {"type": "record", "name": "deep.N%d" % level, "fields": [{"name": "tag", "type": "string"}, {"name": "inner", "type": ["null", deep]}]}
+    simple = {"type": "record", "name": "ns.Simple", "fields": [{"name": "a", "type": "int"}, {"name": "again", "type": ["null", "Simple"]}]}
+    want = _direct(simple)
+    deep_parsed = parse_schema(deep)
+    want_deep = _direct(deep_parsed)
+
+    def dive(n, schema):
+        if n > 0:
+            return dive(n - 1, schema)
+        return to_parsing_canonical_form(schema)
+    old_limit = sys.getrecursionlimit()
+    faults = 0
+    try:
+        base = len(__import__("inspect").stack())
+        sys.setrecursionlimit(base + 1000)
+        for n in range(300, 990, 9):
+            try:
+                dive(n, deep_parsed)
+            except RecursionError:
+                faults += 1
+            else:
+                continue
+            got, got_deep = _direct(simple), _direct(deep_parsed)
+            run.count({"schema": simple, "tags": ["after-interrupted-call"]}, True, ["after-interrupted-call"])
+            if got != want or got_deep != want_deep:
+                sys.setrecursionlimit(old_limit)
+                run.fail({"schema": simple, "after_interrupted_call": got, "alone": want, "deep_same": got_deep == want_deep,
+                          "stack_depth": n, "tags": ["after-interrupted-call"]},
+                         "the canonical form of a schema differs after an earlier call was cut short by the recursion limit", kind="oracle")
+                break
+    finally:
+        sys.setrecursionlimit(old_limit)
+    run.tag("interrupted-calls", faults)
+    # (c) threads
+    big = [parse_schema({"type": "record", "name": "w%d.Wide" % k, "fields": [
+        {"name": "f%d_%d" % (k, i), "type": {"type": "enum", "name": "E%d_%d" % (k, i), "symbols": ["S%d_%d_%d" % (k, i, j) for j in range(6)]}}
+        for i in range(150)]}) for k in range(3)]
+    alone = [_direct(b_) for b_ in big]
+    old_si = sys.getswitchinterval()
+    sys.setswitchinterval(1e-6)
+    bad = []
+    try:
+        barrier = threading.Barrier(len(big))
+
+        def work(k, rounds):
+            barrier.wait()
+            for _ in range(rounds):
+                r = _direct(big[k])
+                if r != alone[k]:
+                    bad.append((k, r))
+                    return
+        ts = [threading.Thread(target=work, args=(k, scale(tier, 60))) for k in range(len(big))]
+        for t in ts:
+            t.start()
+        for t in ts:
+            t.join()
+    finally:
+        sys.setswitchinterval(old_si)
+    run.count({"threads": len(big), "tags": ["threads"]}, True, ["threads"])
+    if bad:
+        k, r = bad[0]
+        run.fail({"schema_name": "w%d.Wide" % k, "concurrent": str(r)[:300], "alone": str(alone[k])[:300], "tags": ["threads"]},
+                 "the canonical form computed while other threads compute theirs differs from the one computed alone", kind="oracle")
+    after = _direct(simple)
+    if after != want:
+        run.fail({"schema": simple, "after_threads": after, "alone": want, "tags": ["threads"]},
+                 "the canonical form of a schema differs after a threaded run", kind="oracle")
 
 
 def _strip_markers(x):
